@@ -4,12 +4,15 @@ SPEC = {
     "gen": [],
     "streams": [
         {"name": "pool", "cmd": "pool",
-         "args": {"quick": ["-cases", "1200", "-exh-np", "2", "-exh-nb", "2", "-exh-len", "2"],
+         "args": {"quick": ["-cases", "800", "-exh-np", "2", "-exh-nb", "2", "-exh-len", "2"],
                   "thorough": ["-cases", "20000", "-exh-np", "3", "-exh-nb", "3", "-exh-len", "2"]},
          "search_args": ["-cases", "30000", "-exh-np", "2", "-exh-nb", "2", "-exh-len", "2"]},
         {"name": "verify", "cmd": "pool",
          "args": {"quick": ["-mode", "verify", "-cases", "1200"], "thorough": ["-mode", "verify", "-cases", "20000"]},
          "search_args": ["-mode", "verify", "-cases", "20000"]},
+        {"name": "app", "cmd": "pool",
+         "args": {"quick": ["-mode", "app", "-cases", "60", "-blocks", "36"], "thorough": ["-mode", "app", "-cases", "1500", "-blocks", "48"]},
+         "search_args": ["-mode", "app", "-cases", "600", "-blocks", "40"]},
     ],
     "trusted_base": [
         "Coq 8.16.1 kernel (coqc; coqchk in the thorough tier); no native_compute",
@@ -17,7 +20,8 @@ SPEC = {
         "vm_compute evaluation of Verif.Roothash.Pool on the recorded cases (no extraction)",
         "harness/cmd/pool -mode verify (signs commitments with node keys and runs commitment.VerifyExecutorCommitment -> AddVerifiedExecutorCommitment -> ProcessCommitments as roothash/transactions.go does)",
         "abstracted inside the model of VerifyExecutorCommitment (Roothash/Verify.v): the signature check, message hashing / ValidateBasic of messages, RAK attestation and the message validator are boolean inputs measured on the real commitment by the harness (non-TEE runtime, no messages, nil validator in the harness); hashes are opaque numbers",
-        "not modelled: the roothash application's tryFinalizeRound* mapping of outcomes to blocks (finalization.go) and the emitted block header",
+        "harness/cmd/pool -mode app + harness/internal/muxdrv (drives the real roothash application behind the real ABCI multiplexer with signed ExecutorCommit transactions; reads runtime state, round-timeout index and events)",
+        "abstracted in Roothash/App.v: one runtime; block hashes and the state root of a commitment header are tables measured on the implementation; the elected committee is an input of the block in which it changes; liveness statistics, slashing, runtime messages, round results are not modelled; the round-timeout index is identified with NextTimeout (the harness checks they agree after every block)",
     ],
     "assumptions": [
         "commitments reach the pool through VerifyExecutorCommitment (as in roothash/transactions.go and the executor worker); the premise `verified` of the history theorems is proved from the model of that function and the verify stream checks the model against the real function; the pool stream also exercises histories outside it, where only model/implementation agreement is checked",
